@@ -259,8 +259,10 @@ func (c *Config) flattenedKeys(active []*Config, opts []Option) []string {
 	return keys
 }
 
+// The read accessors accept a nil receiver: the zero value of Config has no
+// fields object and reads as an empty configuration.
 func (f *fields) get(name string) (value, bool) {
-	if f.d == nil {
+	if f == nil || f.d == nil {
 		return nil, false
 	}
 	v, found := f.d[name]
@@ -268,14 +270,23 @@ func (f *fields) get(name string) (value, bool) {
 }
 
 func (f *fields) dict() map[string]value {
+	if f == nil {
+		return nil
+	}
 	return f.d
 }
 
 func (f *fields) array() []value {
+	if f == nil {
+		return nil
+	}
 	return f.a
 }
 
 func (f *fields) del(name string) bool {
+	if f == nil {
+		return false
+	}
 	_, exists := f.d[name]
 	if exists {
 		delete(f.d, name)
@@ -284,6 +295,9 @@ func (f *fields) del(name string) bool {
 }
 
 func (f *fields) delAt(i int) bool {
+	if f == nil {
+		return false
+	}
 	a := f.a
 	if i < 0 || len(a) <= i {
 		return false
